@@ -1,4 +1,5 @@
 import BM.Sanitize
+import BM.Props.Pins
 import BM.Spec.Oracles
 import BM.Proofs.PassInv
 import BM.Proofs.Prov
